@@ -374,6 +374,7 @@ def check(prop, tier, seed, replay=None):
     dist = {}
     nontrivial = set()
     oracle_fail = []
+    new_fail = 0
     for l in gen:
         if l in seen:
             continue
@@ -391,14 +392,16 @@ def check(prop, tier, seed, replay=None):
         why = plugin.oracle(l, o)
         if why:
             oracle_fail.append((l, o, why))
+            if boost and not match_finding(findings, plugin, l, o, why):
+                new_fail += 1
         if _HANGS[0] >= 25 and not replay:
             # 25 operations of the code under test did not return: the verdict does not need more of them, and each
             # one costs a watchdog period
             notes.append("stopped after %d hanging operations (%d cases run)" % (_HANGS[0], len(lines)))
             break
         if boost and not replay:
-            if len(oracle_fail) >= 200:
-                notes.append("failing-input search stopped after %d failing inputs" % len(oracle_fail))
+            if new_fail >= 200:      # failing inputs that no known finding explains
+                notes.append("failing-input search stopped after %d failing inputs" % new_fail)
                 break
             if cap_cases and len(lines) >= cap_cases:
                 notes.append("failing-input search capped at %d cases" % cap_cases)
